@@ -287,7 +287,10 @@ func (n *Node) monBlockCertificate(b *Block) {
 		}
 		w.violate("C02", key, n, fmt.Sprintf("ProcessBlock at height %d view %d with %d valid current-view commits (M=%d), %d invalid counted", b.index, c.ViewNumber, valid, c.M(), len(bad)))
 	}
-	if b.index != n.height+1 || b.prev != n.tip {
+	if n.ledgerAhead {
+		// the ledger obtained this height elsewhere while consensus for it was still running: the application ignores the
+		// duplicate, the comparison with the (already advanced) tip is meaningless
+	} else if b.index != n.height+1 || b.prev != n.tip {
 		w.violate("C02", "C02/block-does-not-extend-tip", n, fmt.Sprintf("block index %d prev %s, ledger height %d tip %s", b.index, b.prev, n.height, n.tip))
 	}
 	req, why := currentProposal(c)
@@ -351,7 +354,7 @@ func (n *Node) monPreBlockCertificate(b *PreBlock) {
 		return
 	}
 	r := req.GetPrepareRequest()
-	if !slices.Equal(b.txHashes, r.TransactionHashes()) || b.ts != r.Timestamp() || b.nonce != r.Nonce() || b.index != n.height+1 || b.prev != n.tip {
+	if !slices.Equal(b.txHashes, r.TransactionHashes()) || b.ts != r.Timestamp() || b.nonce != r.Nonce() || (!n.ledgerAhead && (b.index != n.height+1 || b.prev != n.tip)) {
 		w.violate("C02", "C02/preblock-differs-from-proposal", n, "pre-block does not carry the proposal / extend the tip")
 	}
 }
